@@ -41,7 +41,7 @@ type solverSpec struct {
 var racers = []struct {
 	solver int
 	mode   Mode
-}{{0, modeQQ}, {0, modeLQ}, {0, modeQU}, {1, modeQQ}, {2, modeQQ}, {0, modeLU}}
+}{{0, modeQQ}, {0, modeQU}, {1, modeQU}, {0, modeLQ}, {1, modeQQ}, {2, modeQQ}, {0, modeLU}}
 
 var solvers = []solverSpec{
 	{"z3-new", func(f string, ms int) []string { return []string{"z3-new", fmt.Sprintf("-t:%d", ms), f} }},
